@@ -546,6 +546,15 @@ func (o *loopOracle) OnEvent(ev *kernel.Event) {
 		return
 	}
 	lf.polls++
+	if lf.restored {
+		return // regulation of this fan has stopped: nothing more to expect
+	}
+	// the premise "request unchanged" must be observable: identity read-back, or the
+	// plain direct algorithm over a constant curve value (its request is constant by construction)
+	identityRB := lf.identity && lf.spec.Driver.Quant == "" && !lf.spec.Driver.IgnoreWrites
+	if !identityRB && !directNoLimit(lf.spec) {
+		return
+	}
 	if val != 0 {
 		lf.pollsAtZero = 0
 		lf.episode = false
@@ -561,7 +570,7 @@ func (o *loopOracle) OnEvent(ev *kernel.Event) {
 	}
 	lf.pollsAtZero++
 	bound := 20*o.st.Sc.RpmWin + 20
-	if lf.lastReq >= lf.hi && !lf.restored {
+	if identityRB && lf.lastReq >= lf.hi && !lf.restored {
 		lf.atMaxZero++
 		if lf.atMaxZero > bound && !lf.maxReported {
 			lf.maxReported = true
@@ -571,7 +580,7 @@ func (o *loopOracle) OnEvent(ev *kernel.Event) {
 	}
 	// cycles must run at least as often as polls for the bound to be meaningful; the
 	// generator keeps tick <= rpm poll period
-	if lf.pollsAtZero > bound && !lf.stalledErr && lf.lastReq < lf.hi {
+	if lf.pollsAtZero > bound && !lf.stalledErr && (!identityRB || lf.lastReq < lf.hi) {
 		lf.stalledErr = true // report once per fan
 		o.res.Violate("C10", "raise-within-bound", fmt.Sprintf("raise-within-bound fan=%s priorRaises=%s", lf.spec.Kind, b2s(lf.raises > 0)), ev.Seq, ev.T,
 			"fan %s: %d consecutive RPM polls read 0 (window %d, bound %d) since the last raise/rotation and the request is still %d (< max %d); raises so far %d",
